@@ -88,6 +88,7 @@ type CallObs struct {
 	RespTrailer  http.Header
 	RawHeader    http.Header // uncopied
 	RawTrailer   http.Header
+	TrailerLater http.Header // the response trailers after further Receives past the end of the stream
 	PeekHeader   http.Header // ResponseHeader() read before the first Receive
 	Peeked       bool
 	SentReq      *connect.Request[Msg]
@@ -1070,6 +1071,7 @@ func (w *World) runCall(t *core.Task, o *CallObs) {
 					if err == nil {
 						r.HasMsg, r.Msg = true, w.recvValue(o, m)
 					}
+					o.TrailerLater = stream.ResponseTrailer().Clone()
 					w.rec(o, rcv, r)
 				case "closeresp":
 					w.opGate(o, "closeresp")
